@@ -490,7 +490,7 @@ pub fn run(report: &Report, tier: &Tier) {
         report.floor(r, 50);
     }
     let seed = report.seed;
-    let n: u64 = if tier.thorough { 120_000 } else { 3_000 };
+    let n: u64 = if tier.thorough { 300_000 } else { 3_000 };
     run_parallel(report, n, threads(), tier.budget_s, |i, l| {
         run_one(util::mix(seed, 0xC09_0000 + i), l);
     });
